@@ -137,13 +137,13 @@ Definition is_dup (id : list nat) (p : nat) (s : mstate) : bool * mstate :=
                   hist := (id, p) :: hist s |}).
 
 (* GreedyRepeatIterator as a post-order traversal.  z = 1 iff the zero-repetition entry is on the
-   stack; flag = still on the chain built by the priming loop (whose depth test counts only body
-   iterators, while later re-deepening also counts the zero entry) *)
+   stack; flag = still on the chain built by the priming loop.  Both the priming loop and the later
+   re-deepening allow [bound] repetitions (the zero entry does not count, since the D27 fix). *)
 Fixpoint explore (body : nat -> mstate -> LS) (mn bound z : nat) (fuel : nat) (j : nat) (flag emp : bool)
          (p : nat) (s : mstate) : LS :=
   (* emp: some repetition on the path so far consumed nothing, which lifts the minimum *)
   let yield_here := (Nat.leb mn (z + j) || emp) && Nat.ltb 0 (z + j) in
-  let can_deepen := if flag then Nat.ltb j bound else Nat.ltb (z + j) bound in
+  let can_deepen := Nat.ltb j bound in     (* j counts repetitions only; [flag] is kept for the record *)
   match fuel with
   | O => LOut
   | S f =>
